@@ -45,11 +45,26 @@ def roles(fx):
         r['in_subgroup'] = insub
         cands = local_callees(fx, insub, lambda c, f, t: is_inherent(c, f, t) and len(t['args']) == 1)
         # the r-torsion test is the one calling CurveAffine::mul; the other is the curve-equation test
+        def uses_group_law(p0):
+            # does the function (through local callees) perform group operations?
+            seen_, todo_ = set(), [p0]
+            while todo_:
+                q = todo_.pop()
+                if q in seen_ or len(seen_) > 40:
+                    continue
+                seen_.add(q)
+                bq = fx.body(q)
+                if bq is None:
+                    continue
+                for _, t_ in bq.calls():
+                    c_ = callee(t_) or {}
+                    if c_.get('trait') in ('CurveProjective', 'CurveAffine') and c_.get('name') in ('double', 'add_assign', 'add_assign_mixed', 'mul', 'mul_assign', 'sub_assign'):
+                        return True
+                    if c_.get('res_local') and c_.get('res') and not c_.get('trait'):
+                        todo_.append(c_['res'])
+            return False
         for p in cands:
-            b = fx.body(p)
-            names = [(callee(t) or {}).get('name') for _, t in b.calls()] if b else []
-            traits = [(callee(t) or {}).get('trait') for _, t in b.calls()] if b else []
-            if 'mul' in names and 'CurveAffine' in traits:
+            if uses_group_law(p):
                 r['r_torsion'] = p
             else:
                 r.setdefault('is_on_curve', p)
@@ -138,9 +153,19 @@ def _const_refs(fx, root):
         elif isinstance(node, list):
             for v in node:
                 walk(v)
-    for p, f in fx.fns.items():
-        if (p == root or p.startswith(root + '::')) and 'mir' in f:
-            walk(f['mir']['blocks'])
+    import inline as INL
+    seen, todo = set(), [root]
+    while todo:
+        q = todo.pop()
+        if q in seen:
+            continue
+        seen.add(q)
+        for p, f in fx.fns.items():
+            if (p == q or p.startswith(q + '::')) and 'mir' in f:
+                walk(f['mir']['blocks'])
+                # private helpers the function was factored into
+                for r_ in local_callees(fx, p, lambda c, f_, t: INL.is_private_helper(fx, c.get('res'))):
+                    todo.append(r_)
     return out
 
 
